@@ -5,10 +5,11 @@ sys.modules['gekko.gekko']; the attribute `gekko.gekko` of the package is shadow
 by the class).  The real solver runs in the harness-owned scratch directory; the
 outcome that crosses the boundary is then altered according to the fault plan:
 
-  killed     empty stdout, no result files (results.json, options.json removed)
+  killed     empty stdout, the solver wrote nothing: results.json and options.json are what they were before the launch
+             (absent in a fresh directory)
   error      stdout carries an '@error:' block
   truncated  results.json cut at a seeded byte
-  missing    results.json removed (options.json stays)
+  missing    results.json is what it was before the launch (absent in a fresh directory); options.json is written
   enospc     the solver is not started and its model directory loses results: Popen raises OSError(ENOSPC)
 """
 import errno
@@ -71,6 +72,19 @@ class SimSolver:
         if fault and fault["kind"] == "enospc":
             self.fired.append({"solve": k, "kind": "enospc"})
             raise OSError(errno.ENOSPC, "No space left on device (injected)")
+        res = os.path.join(cwd, "results.json")
+        opt = os.path.join(cwd, "options.json")
+        # what the directory held before this launch: a solver that dies writes nothing, it does not clean up either
+        pre = {f: (open(f, "rb").read() if os.path.isfile(f) else None) for f in (res, opt)}
+
+        def restore(f):
+            if pre[f] is None:
+                if os.path.isfile(f):
+                    os.remove(f)
+            else:
+                with open(f, "wb") as fh:
+                    fh.write(pre[f])
+
         p = _real.Popen(args, stdout=_real.PIPE, stderr=_real.PIPE, cwd=cwd, env=env, universal_newlines=True)
         try:
             outs, errs = p.communicate(timeout=self.wall_limit)
@@ -78,16 +92,13 @@ class SimSolver:
             p.kill()
             outs, errs = p.communicate()
         rc = p.returncode
-        res = os.path.join(cwd, "results.json")
-        opt = os.path.join(cwd, "options.json")
         rec = {"solve": k, "rc": rc, "had_results": os.path.isfile(res), "stdout_len": len(outs)}
         if fault:
             kind = fault["kind"]
             if kind == "killed":
                 outs, errs, rc = "", "", -9
                 for f in (res, opt):
-                    if os.path.isfile(f):
-                        os.remove(f)
+                    restore(f)
             elif kind == "error":
                 outs = outs + "\n @error: Solution Not Found\n injected by the simulator\n"
             elif kind == "truncated":
@@ -97,8 +108,7 @@ class SimSolver:
                     with open(res, "wb") as f:
                         f.write(data[:cut])
             elif kind == "missing":
-                if os.path.isfile(res):
-                    os.remove(res)
+                restore(res)
             elif kind == "mirror":
                 # not a failure: the solver legitimately lands on the OTHER branch of the squared rigid-offset equations of
                 # flippable hard modules (x_m - x_m_r)^2 == const: every rectangle of such a module is reflected about the
